@@ -541,7 +541,7 @@ class Gen:
                              (1, lambda: (A.POr(A.PInt(self.small_int()), A.PInt(self.small_int())), False))]
             p = pin(T)
             if p:
-                opts.append((3, lambda: p))
+                opts.append((5, lambda: p))
         elif k == "str":
             opts = simple + [(3, lambda: (A.PStr(self.pick(WORDS)), False)),
                              (1, lambda: (A.PTup("Str", binder(BIN)[0]), True))]
@@ -556,9 +556,9 @@ class Gen:
         elif k == "tup":
             opts = simple + [(6, lambda: self.tuple_pattern(sc, T, d, mode, binds))]
             if any(l for l, _ in T[2]):
-                opts.append((2, lambda: self.partial_pattern(sc, T, d, mode, binds)))
+                opts.append((4, lambda: self.partial_pattern(sc, T, d, mode, binds)))
                 if mode != "none":
-                    opts.append((1, lambda: self.star_pattern(sc, T, mode, binds)))
+                    opts.append((2, lambda: self.star_pattern(sc, T, mode, binds)))
             if writable(T):
                 opts.append((1, lambda: (A.PType(ast_type(T)), True)))
                 opts.append((1, lambda: self.ascribe(T, binds, mode, sc)))
@@ -575,6 +575,17 @@ class Gen:
             opts = simple + [(6, variant)]
             if T[2]:
                 opts.append((1, lambda: (A.PType(A.TAlias(T[2])), True)))
+            one_int = [v for v in T[1] if v[0] == "tup" and len(v[2]) == 1 and v[2][0] == ("", INT)]
+            if len(one_int) >= 2 and mode != "none":
+                def alt_bind():
+                    a, b = self.r.sample(one_int, 2)
+                    n = self.fresh_name() if mode == "fresh" else self.var_name(sc)
+                    if n in binds:
+                        n = self.fresh_name()
+                    binds[n] = INT
+                    self.tags.add("alternation_shared_binder")
+                    return A.POr(A.PTup(a[1], A.PId(n)), A.PTup(b[1], A.PId(n))), False
+                opts.append((4, alt_bind))
             if len(T[1]) >= 2 and mode == "none":
                 def alt():
                     a, b = self.r.sample(list(T[1]), 2)
@@ -803,9 +814,44 @@ class Gen:
             terms, t = self.gen_any(sc, flow, d + 1)
             return A.Chain(*terms), t
 
+        def bind_tuple():
+            terms, t = self.gen_tuple(sc, flow, d + 1)
+            n = self.var_name(sc)
+            sc.vars[n] = t
+            self.spend()
+            return A.Chain(*terms, pat=A.PId(n)), OKT
+
+        def repeat_idiom():
+            # the same binder twice: the two positions must hold equal values
+            k = self.small_int()
+            vals = [self.pick([A.Int(k), A.Int(k), A.Int(self.small_int())]) for _ in range(3)]
+            ivars = sc.of(lambda t: t == INT)
+            if ivars and self.chance(0.5):
+                vals[0] = A.Var(self.pick(ivars))
+            n = self.var_name(sc, shadow_ok=False)
+            shape = self.pick(["pair", "nested", "triple", "pin"])
+            self.spend(8)
+            self.tags.add("repeated_binder")
+            sc.vars[n] = INT
+            if shape == "pair":
+                return A.Chain(A.Tup("", vals[0], vals[1]), A.Match(A.PTup("", A.PId(n), A.PId(n)))), OKT
+            if shape == "nested":
+                return A.Chain(A.Tup("", A.Tup("P", vals[0], vals[2]), vals[1]),
+                               A.Match(A.PTup("", A.PTup("P", A.PId(n), A.PWILD), A.PId(n)))), OKT
+            if shape == "triple":
+                return A.Chain(A.Tup("", *vals), pat=A.PTup("", A.PId(n), A.PId(n), A.PId(n))), OKT
+            if ivars:
+                self.tags.add("pin")
+                return A.Chain(A.Tup("", vals[0], vals[1]), A.Match(A.PTup("", A.PPin(self.pick(ivars)), A.PId(n)))), OKT
+            return A.Chain(A.Tup("", vals[0], vals[1]), A.Match(A.PTup("", A.PId(n), A.PId(n)))), OKT
+
         opts = [(5, bind_var)]
+        if self.on("tuples"):
+            opts.append((3, bind_tuple))
         if self.on("patterns"):
             opts.append((4, destructure))
+            if fallible:
+                opts.append((1.5, repeat_idiom))
         if self.on("blocks") and not self.low():
             opts.append((2, dead_block))
             opts.append((3, scoped_block))
@@ -818,9 +864,10 @@ class Gen:
     # -- functions -----------------------------------------------------------------
     def param_type(self):
         opts = [(4, lambda: INT), (2, lambda: TT("", (("", INT), ("", INT)))), (1, lambda: STR),
-                (1, lambda: NIL), (2, lambda: TT("P", (("x", INT), ("y", INT))))]
+                (2, lambda: NIL), (3, lambda: TT("P", (("x", INT), ("y", INT)))),
+                (1, lambda: TT("", (("a", INT), ("", TT("B", (("z", INT),))))))]
         if self.on("unions"):
-            opts.append((3, lambda: self.union_type()))
+            opts.append((4, lambda: self.union_type()))
         return self.weighted(opts)
 
     def union_type(self):
@@ -828,13 +875,15 @@ class Gen:
         for n, T in self.aliases:
             if self.chance(0.5):
                 return T
-        name = self.pick(["shape", "opt", "res", "t"])
+        name = self.pick(["shape", "opt", "res", "t", "ab"])
         if any(n == name for n, _ in self.aliases):
             return next(T for n, T in self.aliases if n == name)
         if name == "shape":
             T = UN([TT("Circle", (("r", INT),)), TT("Rect", (("w", INT), ("h", INT)))], name)
         elif name == "opt":
             T = UN([INT, NIL], name)
+        elif name == "ab":
+            T = UN([TT("A", (("", INT),)), TT("B", (("", INT),))], name)
         elif name == "res":
             T = UN([TT("Ok", (("", INT),)), TT("Err", (("", STR),)), NIL], name)
         else:
@@ -847,6 +896,9 @@ class Gen:
         """a function literal (closure over sc) -> (term, FN(P, R))"""
         self.spend()
         self.tags.add("function")
+        rec_first = P is None and R is None and self.on("tailcalls") and self.chance(0.3)
+        if rec_first:
+            P = self.pick([INT, INT, TT("", (("", INT), ("", INT)))])
         P = P if P is not None else self.param_type()
         want = R if R is not None else self.pick([INT, ANY, ANY])
         if self.chance(0.06) and R is None:
@@ -855,8 +907,12 @@ class Gen:
         if any(t[0] != "fn" for t in sc.vars.values()):
             self.tags.add("closure_scope")
         flow = None if P == NIL else P
-        style = self.weighted([(3, lambda: "block"), (2, lambda: "seq"),
-                               (3 if self.on("tailcalls") else 0, lambda: "rec")])
+        style = "rec" if rec_first else self.weighted([(3, lambda: "block"), (2, lambda: "seq"),
+                                                       (2 if self.on("tailcalls") else 0, lambda: "rec")])
+        if style == "rec" and P == INT and self.chance(0.5):
+            body = self.gen_named_tail_body(fsc, sc, want, d)
+            if body is not None:
+                return A.Fn(ast_type(P), body[0]), FN(P, body[1])
         if style == "rec" and P in (INT, TT("", (("", INT), ("", INT)))):
             body = self.gen_rec_body(fsc, P, want, d)
             T = FN(P, want if want == INT else ANY)
@@ -870,6 +926,34 @@ class Gen:
             T = FN(P, t if want == ANY else want)
         param = None if (P == NIL and self.chance(0.7)) else ast_type(P)
         return A.Fn(param, body), T
+
+    def gen_named_tail_body(self, fsc, sc, want, d):
+        """`^g` to an earlier function / `^~` to a nilary one, out of a (nested) branch"""
+        SUB = "__integer_subtract__"
+        to_int = [n for n, t in sc.vars.items() if t[0] == "fn" and t[1] == INT]
+        nilary = [n for n, t in sc.vars.items() if t[0] == "fn" and t[1] == NIL]
+        if not to_int and not nilary:
+            return None
+        self.tags.add("tail_call")
+        self.spend(8)
+        k = self.small_int()
+        if nilary and (not to_int or self.chance(0.4)):
+            g = self.pick(nilary)
+            self.tags.add("tail_call_ripple")
+            tail = A.Chain(A.Ref(g), A.TAILRIPPLE)
+            R = sc.vars[g][2]
+        else:
+            g = self.pick(to_int)
+            self.tags.add("tail_call_named")
+            tail = A.Chain(A.Tup("", A.Ripple(), A.Int(self.pick([1, 2]))), A.Builtin(SUB), A.Tail(g))
+            R = sc.vars[g][2]
+        other = [A.Int(self.small_int())] if R == INT else [A.Tup(self.pick(TAGS), A.Ripple())]
+        R = R if R == INT else ANY
+        if self.chance(0.5):
+            self.tags.add("tail_call_nested_branch")
+            inner = A.Block(A.Branch([A.Chain(A.Match(A.PInt(k)))], [A.Chain(*other)]), A.Branch([tail]))
+            return A.Expr(A.Branch([A.Chain(A.Match(A.PId("n")))], [A.Chain(A.Var("n"), inner)])), R
+        return A.Expr(A.Branch([A.Chain(A.Match(A.PInt(k)))], [A.Chain(*other)]), A.Branch([tail])), R
 
     def gen_rec_body(self, fsc, P, want, d):
         """a self-recursive body using `^` (always towards a base case)"""
@@ -920,6 +1004,23 @@ class Gen:
         steps = []
         cur = None
         n = self.pick([1, 2, 2, 3, 3, 4, 5])
+        if self.on("functions") and not self.low():
+            idiom = self.weighted([(4, lambda: "none"), (2 if self.on("closures") else 0, lambda: "closure"),
+                                   (1.2 if self.on("refs") else 0, lambda: "higher"), (6, lambda: "fns")])
+            if idiom == "closure":
+                steps += self.closure_idiom(sc)
+                cur = OKT
+            elif idiom == "higher":
+                steps += self.higher_order_idiom(sc)
+                cur = OKT
+            elif idiom == "fns":
+                for _ in range(self.pick([1, 2, 2, 3])):
+                    fn, T = self.gen_fn(sc, 1)
+                    free = [x for x in FNS if x not in sc.vars]
+                    nm = self.pick(free) if free else self.pick(FNS)
+                    sc.vars[nm] = T
+                    steps.append(A.Chain(fn, pat=A.PId(nm)))
+                    cur = OKT
         for _ in range(n):
             if self.low():
                 break
@@ -937,6 +1038,51 @@ class Gen:
                     cur = OKT
         steps.append(self.observation(sc, cur))
         return A.Program(steps, [(n_, ast_type_alias(T)) for n_, T in self.aliases])
+
+    def closure_idiom(self, sc):
+        """a closure factory: the inner function captures a local of the outer call and a global that is
+        shadowed after the capture; the factory is applied and the closure called later"""
+        v = self.pick([n for n in VARS if n not in sc.vars] or VARS)
+        steps = [A.Chain(A.Int(self.small_int()), pat=A.PId(v))]
+        sc.vars[v] = INT
+        op = self.pick(["__integer_add__", "__integer_subtract__", "__integer_multiply__"])
+        inner_body = self.pick([
+            A.Expr(A.Branch([A.Chain(A.Tup("", A.Var("c"), A.Ripple(), A.Var(v)))])),
+            A.Expr(A.Branch([A.Chain(A.Tup("", A.Chain(A.Tup("", A.Var("c"), A.Ripple()), A.Builtin(op)), A.Var(v)))])),
+            A.Expr(A.Branch([A.Chain(A.Match(A.PPin("c")))], [A.Chain(A.Tup("Same", A.Var(v)))]),
+                   A.Branch([A.Chain(A.Tup("", A.Param(), A.Var("c")))])),
+        ])
+        outer = A.Fn(A.TINT, A.Expr(A.Branch([
+            A.Chain(A.Tup("", A.Ripple(), A.Var(v)), A.Builtin(op), pat=A.PId("c")),
+            A.Chain(A.Fn(A.TINT, inner_body))])))
+        steps.append(A.Chain(outer, pat=A.PId("mk")))
+        steps.append(A.Chain(*self.gen_int(sc, None, 2), pat=A.PId(v)))          # shadow the captured name
+        g = self.pick(["g", "h"])
+        steps.append(A.Chain(A.Int(self.small_int()), A.Var("mk"), A.Match(A.PId(g))))
+        if self.chance(0.5):
+            steps.append(A.Chain(A.Int(9), pat=A.PId("c")))                       # a global `c` the closure must not see
+            sc.vars["c"] = INT
+        sc.vars[g] = FN(INT, ANY)
+        self.spend(18)
+        self.tags.update(["closure_factory", "closure_scope", "rebind_after_closure", "nested_function"])
+        return steps
+
+    def higher_order_idiom(self, sc):
+        """a function value passed by reference and applied through a parameter"""
+        f = self.pick(["f", "k"])
+        body = self.gen_arith(Sc(param=INT), INT, 3)
+        steps = [A.Chain(A.Fn(A.TINT, A.Expr(A.Branch([A.Chain(*body)]))), pat=A.PId(f))]
+        sc.vars[f] = FN(INT, INT)
+        ap_body = self.pick([
+            A.Expr(A.Branch([A.Chain(A.Match(A.PTup("", A.PId("h"), A.PId("v"))))], [A.Chain(A.Var("v"), A.Var("h"))])),
+            A.Expr(A.Branch([A.Chain(A.Param(A.I(1)), A.Param(A.I(0), sugar=True))])),
+            A.Expr(A.Branch([A.Chain(A.Param(A.I(1)), A.Param(A.I(0)), A.Param(A.I(0)))])),
+        ])
+        steps.append(A.Chain(A.Fn(A.TTup("", A.TFn(A.TINT, A.TINT), A.TINT), ap_body), pat=A.PId("ap")))
+        sc.vars["ap"] = FN(TT("", (("", FN(INT, INT)), ("", INT))), INT)
+        self.spend(14)
+        self.tags.update(["higher_order", "reference"])
+        return steps
 
     def observation(self, sc, flow):
         """the final step: a tuple collecting variables and applying every function to several arguments"""
@@ -977,6 +1123,15 @@ class Gen:
                 return [A.Int(self.pick([0, 1, 2, 3, 4]))]
             if P == TT("", (("", INT), ("", INT))):
                 return [A.Tup("", A.Int(self.pick([0, 1, 2, 3])), A.Int(self.small_int()))]
+            if P[0] == "tup" and any(t[0] == "fn" for _, t in P[2]):
+                fs = []
+                for l, t in P[2]:
+                    if t[0] == "fn":
+                        c = [n for n, vt in sc.vars.items() if vt == t]
+                        fs.append(A.Field(A.Chain(A.Ref(self.pick(c)) if c else A.Fn(A.TINT)), l))
+                    else:
+                        fs.append(A.Field(A.Chain(A.Int(self.small_int())), l))
+                return [A.Tup(P[1], *fs)]
             return self.gen_of(Sc(), None, P, 9)
         finally:
             self.budget = save
@@ -1009,17 +1164,11 @@ def _pat_names(p, binders, pins):
             _pat_names(a, binders, pins)
 
 
-def _erase_names(v):
-    if isinstance(v, dict) and v.get("k") == "tup":
-        nm = v["name"]
-        return {"k": "tup", "name": nm[nm.index("("):] if "(" in nm else "", "fs": [_erase_names(x) for x in v["fs"]]}
-    return v
-
-
-def known_pattern(prog, mismatch=None):
-    """the key of a known finding (see /verif/known_findings.json) whose trigger occurs in the program,
-    or None.  Two triggers are syntactic; two depend on the compiler's static types, which the syntax
-    does not show, and are therefore recognised from the SHAPE of the disagreement as well."""
+def known_pattern(prog):
+    """the key of a known finding (see /verif/known_findings.json) whose SYNTACTIC trigger occurs in the
+    program, or None.  (Two further known findings depend on the compiler's static types, which the
+    syntax does not show; engines/seqlang.py attributes a disagreement to them by re-running a
+    semantically equivalent rewriting - wrap_binders / inherit_variants below.)"""
     keys = []
 
     def roots(d, parent):
@@ -1063,26 +1212,70 @@ def known_pattern(prog, mismatch=None):
         for v in node.values():
             tail_in_operand(v, inside)
     tail_in_operand(prog, False)
-    if keys:
-        return keys[0]
-    if mismatch is not None:
-        spreads = {"inherit": 0, "any": 0}
 
-        def sp(d, _):
-            if d.get("t") == "tuple" and any(f["f"] == "spread" for f in d["fields"]):
-                spreads["any"] += 1
-                if d["nk"] == "inherit":
-                    spreads["inherit"] += 1
-        A.walk(prog, sp)
-        exp, obs = mismatch.get("exp", []), mismatch.get("obs", {})
-        if spreads["inherit"] and len(exp) == 1 and exp[0].get("t") == "value" and obs.get("t") == "value" \
-                and _erase_names(exp[0]["v"]) == _erase_names(obs["v"]):
-            # the two values differ ONLY in tuple names and the program inherits a name through a spread
-            return "inherit-spread-union-drops-name"
-        if spreads["any"] and len(exp) == 1 and exp[0].get("t") == "value" \
-                and obs.get("t") == "error" and obs.get("e") == "FieldAccessInvalid":
-            return "spread-of-nil-from-nilable-source"
-    return None
+    def binders_in(node, out, stop_fn=True):
+        """names bound by patterns anywhere inside node (not descending into nested function literals)"""
+        if isinstance(node, list):
+            for x in node:
+                binders_in(x, out, stop_fn)
+            return
+        if not isinstance(node, dict):
+            return
+        if node.get("t") == "fn" and stop_fn:
+            return
+        if "p" in node:
+            b, p_ = set(), set()
+            _pat_names(node, b, p_)
+            out |= b
+            if node["p"] == "star":
+                out.add("*")
+            return
+        for v in node.values():
+            binders_in(v, out, stop_fn)
+
+    def has_binding_block(node):
+        if isinstance(node, list):
+            return any(has_binding_block(x) for x in node)
+        if not isinstance(node, dict) or node.get("t") == "fn":
+            return False
+        if node.get("t") == "block":
+            b = set()
+            binders_in(node["body"], b)
+            if b:
+                return True
+        return any(has_binding_block(v) for v in node.values())
+
+    def shifted_locals(d, _):
+        # a branch that binds (and may fail), then a later branch of the same block that contains a nested
+        # block which binds: the later branch's locals are read at shifted indices
+        if "branches" in d and len(d["branches"]) > 1:
+            for i, br in enumerate(d["branches"][:-1]):
+                b = set()
+                binders_in(br, b)
+                if b and any(has_binding_block([x["cond"], x["cons"]]) for x in d["branches"][i + 1:]):
+                    keys.append("locals-shift-after-failed-branch-that-binds")
+                    return
+    if not keys:
+        A.walk(prog, shifted_locals)
+
+    def captured_member(d, _):
+        # inside a function literal: `n.member` where n is ALSO bound inside that literal
+        if d.get("t") == "fn" and d["body"]:
+            b = set()
+            binders_in(d["body"], b, stop_fn=False)
+
+            def acc(x, __):
+                if x.get("t") in ("access", "ref") and x["src"]["k"] == "id" and x["path"] and x["src"]["name"] in b:
+                    keys.append("captured-member-access-ignores-shadowing")
+            A.walk(d["body"], acc)
+    if not keys:
+        A.walk(prog, captured_member)
+    if not keys:
+        def star(d, _):
+            if d.get("p") == "star":
+                keys.append("star-on-union-then-failing-branch")
+        A.walk(prog, star)
+    return keys[0] if keys else None
 
 
 def wrap_binders(prog):
@@ -1156,6 +1349,32 @@ def inherit_variants(prog, limit=4):
     return out
 
 
+def noinput_variant(prog):
+    """The program in which the fields of every tuple literal that CONTAINS A SPREAD do not receive the
+    flowing value (a leading block / string gets nil, a leading variable is not applied): what the
+    implementation computes where the known finding spread-tuple-fields-get-no-flowing-value strikes.
+    Returns None when there is no such field."""
+    import copy
+    prog = copy.deepcopy(prog)
+    changed = [False]
+
+    def f(d, _):
+        if d.get("t") == "tuple" and any(x["f"] == "spread" for x in d["fields"]):
+            for x in d["fields"]:
+                if x["f"] != "chain" or x["chain"]["pat"]:
+                    continue
+                terms = x["chain"]["terms"]
+                t0 = terms[0]
+                if t0["t"] in ("block", "str") and (t0["t"] == "block" or any(s_["s"] == "hole" for s_ in t0["segs"])):
+                    x["chain"]["terms"] = [copy.deepcopy(A.NIL)] + terms
+                    changed[0] = True
+                elif t0["t"] == "access" and t0["src"]["k"] in ("id", "param", "builtin"):
+                    t0["t"] = "ref"
+                    changed[0] = True
+    A.walk(prog, f)
+    return prog if changed[0] else None
+
+
 def _inject_known(g, prog):
     """rarely, plant a known-finding trigger so that the KNOWN-FINDING line stays alive"""
     r = g.r
@@ -1177,7 +1396,7 @@ def generate_programs(seed, n, features=ALL_FEATURES, min_nodes=5, max_nodes=60)
     tries = 0
     while len(out) < n and tries < n * 20:
         tries += 1
-        size = rng.choice([6, 10, 14, 18, 22, 26, 30, 34])
+        size = rng.choice([6, 10, 14, 18, 22, 26, 30, 34, 38])
         g = Gen(random.Random(rng.getrandbits(48)), size, features)
         try:
             prog = g.program()
